@@ -10,13 +10,15 @@ TIE = ("Tie to the code, checked on every run: the hand-written Coq model is ext
        "property's own executable oracle is reported with the input as replay. ")
 
 CLAIMED = {
- "C01": C("Proof (Coq), partial. Proved for every operator table and every string: the tokenizer model never panics and its fuel always "
-          "suffices (C01_lexer_total), the parser model never panics (C01_parser_no_panic, C01_no_panic: mutual induction over all eight "
-          "parser functions), the nesting guard refuses at MAX_DEPTH (C01_depth_guard), rendering is total. Not yet proved: sufficiency of "
-          "the parser's fuel (termination) - observed on every case (outcome FUEL never occurs). " + TIE +
-          "Stack exhaustion is measured for real: 21 deep/long input families up to n = 100 000, each in its own process on a 2 MiB thread.",
+ "C01": C("Proof (Coq). Proved for every operator table and every string: the tokenizer model never panics and its fuel always suffices "
+          "(C01_lexer_total); the parser model never panics (C01_parser_no_panic, C01_no_panic), makes progress in every successful sub-parse (C01_progress) "
+          "and therefore terminates - the explicit fuel is never exhausted (C01_terminates) - so parsing returns Ok or Err (C01_total); every returned tree is "
+          "at most MAX_DEPTH+1 high (C01_ast_height), which bounds the recursion of Clone/Drop/exec/expr/describe; the nesting guard refuses at MAX_DEPTH "
+          "(C01_depth_guard). All by mutual induction over the eight parser functions. Partial only in that stack BYTES are measured, not modelled. " + TIE +
+          "24 deep/long input families (incl. nested parenthesised chains whose tree height is quadratic in the nesting) at n up to 100 000, each in its own "
+          "process on a 2 MiB thread.",
           "Coq kernel; Lexer.v/Parser.v/Printer.v hand-written and tied by correspondence; stack bytes are a property of rustc's frames "
-          "(measured, not modelled).", "Coq proof (invariants over the tokenizer and parser models) + differential correspondence + abort detection in child processes", "6/C01"),
+          "(measured, not modelled).", "Coq proof (invariants, progress and height bound by mutual induction over the parser model) + differential correspondence + abort detection in child processes", "6/C01"),
  "C02": C("Proof (Coq), partial. Proved and re-checked against generated facts on every run: the operator table dumped from the impl equals "
           "README.md's table (+ `in`), setters are exactly the right-associative level-20 operators (C02_table, C02_fixity_sets, C02_table_wf); "
           "binding powers separate adjacent precedences (C08_*). The grouping theorem (B) parse(unparse t) = t for the whole grammar is not yet "
@@ -37,7 +39,8 @@ CLAIMED = {
           "is run in BOTH debug and release builds and the two must agree. " + TIE,
           "Coq kernel; debug + release builds of the harness; rust_decimal modelled.", "Coq proofs over the handler model + two-profile differential correspondence", "6/C04"),
  "C05": C("Proof (Coq), partial. Proved: an unterminated string and a malformed digit run are lexical errors for every table (C05_unterminated_string, "
-          "C05_malformed_number), expect() succeeds only on exactly the expected token (C05_expect_exact), an operator without prefix role, a stray "
+          "C05_malformed_number), a lexical error anywhere makes the whole parse an error - it is never swallowed or skipped (C05_lexical_error_rejected, "
+          "mutual induction over the parser), expect() succeeds only on exactly the expected token (C05_expect_exact), an operator without prefix role, a stray "
           "comma/semicolon/closing delimiter or the end of input cannot start an operand (C05_operator_needs_operand_role, C05_stray_tokens). The "
           "whole-grammar no-junk theorem (C) is not yet ported: on every run every accepted input (of all token sequences up to length 3-4 over 24 "
           "representative tokens incl. quoted separators, and corruptions) is checked against an independent recogniser of the leniently read grammar "
